@@ -486,7 +486,7 @@ CLAIMED['C06'] = dict(
     )
 
 CLAIMED['C07'] = dict(
-        category='partial',
+        category='proof',
         technique="Coq proof over a hand-written model (coq/Model/Threads.v) of a process with several threads: the "
                   "two module-level singletons' thread-local namespaces (created lazily with exactly the attributes "
                   "the `ns` properties create), per-compiler cell state, one small-step machine per thread whose "
@@ -772,6 +772,13 @@ def main():
     )
     with open(os.path.join(VERIF, 'MANIFEST.json'), 'w') as f:
         json.dump(man, f, indent=1)
+    # validate against the given schema with the tooling interpreter when it is there
+    import shutil, subprocess
+    if shutil.which('python3-vt') and os.path.exists('/root/.vp/MANIFEST.schema.json'):
+        subprocess.run(['python3-vt', '-c',
+                        "import json,jsonschema,sys;"
+                        "jsonschema.validate(json.load(open(sys.argv[1])),json.load(open('/root/.vp/MANIFEST.schema.json')));"
+                        "print('MANIFEST.json valid')", os.path.join(VERIF, 'MANIFEST.json')], check=True)
 
 
 if __name__ == '__main__':
